@@ -135,7 +135,96 @@ def run_jun(fields):
         return type(e).__name__
 
 
-DISPATCH = {"base": run_ip, "ip4": run_ip, "ip6": run_ip, "jenc": run_jun, "jdec": run_jun}
+class _Sink:
+    def __init__(self):
+        self.parts = []
+
+    def write(self, s):
+        self.parts.append(s)
+
+
+def run_pipe(fields):
+    from netconan.anonymize_files import FileAnonymizer
+
+    _, flags, salt, words, asnums, reserved, pfx, nets, b4, b6, orc = fields[:11]
+    lines = fields[11:]
+
+    def optlist(s):
+        return None if s.startswith("N") else s[1:].split("\x01")
+
+    try:
+        fa = FileAnonymizer(
+            anon_pwd="p" in flags,
+            anon_ip="a" in flags,
+            salt=salt,
+            sensitive_words=optlist(words),
+            undo_ip_anon="u" in flags,
+            as_numbers=optlist(asnums),
+            reserved_words=optlist(reserved),
+            preserve_prefixes=None if pfx == "-" else _nets(pfx),
+            preserve_networks=None if nets == "-" else _nets(nets),
+            preserve_suffix_v4=int(b4),
+            preserve_suffix_v6=int(b6),
+        )
+    except Exception as e:  # noqa
+        return "RAISED:init:" + type(e).__name__
+    sink = _Sink()
+    records = []
+    if "l" in flags:
+        class H(logging.Handler):
+            def emit(self, rec):
+                records.append("%s:%s" % (rec.levelname, rec.getMessage()))
+        logging.disable(logging.NOTSET)
+        root = logging.getLogger()
+        h = H(level=logging.INFO)
+        root.addHandler(h)
+        old = root.level
+        root.setLevel(logging.INFO)
+    try:
+        fa.anonymize_io(io.StringIO("".join(lines)), sink)
+    except Exception as e:  # noqa
+        return "RAISED:" + type(e).__name__
+    finally:
+        if "l" in flags:
+            root.removeHandler(h)
+            root.setLevel(old)
+            logging.disable(logging.CRITICAL)
+    out = "\x03".join(sink.parts)
+    if "l" in flags:
+        out += "\x05" + "\x06".join(records)
+    if "d" in flags:
+        d = _Sink()
+        fa.anonymizer4.dump_to_file(d)
+        fa.anonymizer6.dump_to_file(d)
+        out += "\x04" + "".join(d.parts)
+    return out
+
+
+def run_asr(fields):
+    """["asr"; h; asn]: _generate_as_number_replacement with the hash value forced to h"""
+    from netconan import sensitive_item_removal as sir
+
+    class FakeMd5:
+        def __init__(self, data):
+            pass
+
+        def hexdigest(self):
+            return "%x" % int(fields[1])
+
+    real = sir.md5
+    sir.md5 = FakeMd5
+    try:
+        a = sir.AsNumberAnonymizer.__new__(sir.AsNumberAnonymizer)
+        a.salt = "s"
+        r = a._generate_as_number_replacement(fields[2])
+        return "None" if r is None else "OK:" + r
+    except Exception as e:  # noqa
+        return type(e).__name__
+    finally:
+        sir.md5 = real
+
+
+DISPATCH = {"asr": run_asr, "pipe": run_pipe, "base": run_ip, "ip4": run_ip, "ip6": run_ip, "jenc": run_jun, "jdec": run_jun}
 
 
 def main():
